@@ -115,14 +115,14 @@ def _with_error_at(prog, i):
 def generate(rng, tier):
     global SHARD
     quick = tier == "quick"
-    SHARD = 24 if quick else 10
+    SHARD = 8 if quick else 8
     limit, samples = (720, 30) if quick else (5040, 200)
     cases = []
     for i, p in enumerate(c08.eager_programs(quick, op="mutation")):
         if i % (3 if quick else 1) == 0:
             p["layout"] = LAYOUT_CYCLE[i % 4]
-            cases.extend(c08._cases_for(p, limit, samples, rng.randrange(1 << 30), configs=("poole",)))
-    n_mut, n_q = (40, 6) if quick else (240, 30)
+            cases.extend(c08._cases_for(p, limit, samples, rng.randrange(1 << 30), configs=("poole", "poolh")))
+    n_mut, n_q = (30, 6) if quick else (240, 30)
     for j in range(n_mut + n_q):
         op = "mutation" if j < n_mut else "query"
         ntop = 1 + j % 4
@@ -159,7 +159,7 @@ def show_expr(case, obs):
 
 
 def nontrivial(case, obs):
-    return (case["config"] in ("aio", "aiot", "pool", "poole", "prom", "threads") and case["prog"]["op"] == "mutation"
+    return (case["config"] in ("aio", "aiot", "pool", "poole", "poolh", "prom", "threads") and case["prog"]["op"] == "mutation"
             and len(case["prog"]["fields"]) >= 2)
 
 
